@@ -5,6 +5,8 @@ from ..cfg import CFG, assigned_value
 from ..lib import (params, returns_of, is_none_const, dominating_literals, reaching_defs_attr)
 from . import cachefam as F
 
+from . import extra as X
+
 EXPLANATION = ("Edge rules in evaluate_action (status <=> error flag on both edges, flag written after the last metadata merge), "
                "canonical query label dominating every state-returning exit of evaluate, the filed object being the returned object, "
                "the last action recorded with namespace + command metadata, the attribute persistence rule (capital-letter filter then "
@@ -265,3 +267,4 @@ def run(chk):
     rule_filename(chk, "C18.6")
     rule_data_writers(chk, "C18.7")
     F.rule_memory_copy(chk, chk.repo, "C18.8")
+    X.rule_store_key_before_materialise(chk, "C18.10")
